@@ -46,13 +46,16 @@ claim("C12", "Lean 4 theorems (core Lean, no Mathlib) about a hand model of pytr
       "Where/WeightNormalization built under vmap are covered only when their arguments broadcast batch-polymorphically (hypothesis in WB; the real Where with mixed-rank arguments under vmap "
       "unwraps to a wrong value or raises); the per-class unwrap bodies are abstract.", "DESIGN.md §5 C12")
 
-claim("C08", "Lean 4 theorems about generated Chain/Invert and a hand n-d array model of the other combinators + differential correspondence on random expression trees",
+claim("C08", "Lean 4 theorems about generated Chain/Invert, the generated Concatenate/Stack/Partial/Reshape/EmbedCondition (proved equal to a hand n-d array model) + differential correspondence on random expression trees",
       "For arrays of any rank and size: jnp.array_split/jnp.concatenate/jnp.stack along any axis are modelled on the (outer, axis, inner) view of row-major data and proved mutually "
       "inverse; Concatenate/Stack apply child j to exactly slice j and write exactly slice j, are lawful when the children are, and return the sum of the children's log-dets; Partial "
       "changes only the indexed positions (gather/scatter laws); Reshape/EmbedCondition only re-present the inputs; the generated Chain is composition, the generated Invert swaps "
-      "directions; slicing, merge_chains and merge_transforms never change the function; Scan/Vmap enter through their defining equivalences. The model is run against the real "
-      "combinators on random trees: ranks 0-3, every valid axis incl. negative, every index kind of Partial, conditional and unconditional children mixed, Scan, Vmap.",
-      _TB + " Model/Arr.lean is a hand model tied by correspondence; lax.scan / filter_vmap themselves are JAX's; declared-shape algebra for negative axes is proved in C13's ArgCheck model.", "DESIGN.md §5 C08")
+      "directions; slicing, merge_chains and merge_transforms never change the function; Scan/Vmap enter through their defining equivalences. The four methods and the constructors of "
+      "Concatenate/Stack/Partial/Reshape/EmbedCondition are regenerated from concatenate.py / utils.py on every run (Gen/ArrCombinators.lean) and proved equal to the hand model for every rank, "
+      "axis (negative included), number of children and child behaviour, so the theorems hold of what the code says now; the generated constructors are proved to declare the C13 shape / cond_shape. "
+      "Generated definitions and hand model are both run against the real "
+      "combinators on random trees: ranks 0-3, every valid axis incl. negative, every index kind of Partial, conditional and unconditional children mixed, Scan, Vmap; the primitive specs against jnp directly.",
+      _TB + " Model/Arr.lean is a hand model tied by proof to the generated definitions and by correspondence to the code; Model/ArrJnp.lean (specs of jnp.array_split/split/concatenate/stack/squeeze/reshape/indexing) and the typing sheet targets_arrcomb.py are trusted + compared; Partial.idxs enters resolved to flat positions; lax.scan / filter_vmap themselves are JAX's; declared-shape algebra for negative axes is proved in C13's ArgCheck model.", "DESIGN.md §5 C08")
 
 claim("C09", "Lean 4 theorems about a hand-written executable model of the masks / masked networks + exhaustive structural and Float/Jacobian correspondence with the real objects",
       "For every size (dim, cond_dim, width, depth, parameters per dimension, block shape, number of blocks, offset) and ALL raw weight/bias/scale values and activations: "
@@ -185,16 +188,29 @@ claim("C06", "Lean 4 theorems about a hand-written executable model of the batch
       "jr.split is abstract (assumed injective in the index; distinctness is measured). Keys are legacy uint32[2] keys. Zero-sized sample shapes/condition batches are "
       "covered (accepted since /repo 2d206ec; the previous max(1, prod) key_size rule is kept as a model variant that rejects them).", "DESIGN.md §5 C06")
 
-claim("C17", "Lean 4 theorems about a hand-written executable model of train/losses.py + Float correspondence with the real losses",
+claim("C17", "Lean 4 theorems about a hand-written executable model of train/losses.py and, for the gradient clause, about the reverse-mode calculus of C18 "
+      "extended by stop_gradient (expression trees assembled from kernels regenerated from the source) + Float correspondence with the real losses and with jax.grad of the real ElboLoss",
       "For every distribution record, batch size, sample count, n_contrastive < batch and every realisation of the random choice: the model of "
       "MaximumLikelihoodLoss is -(sum of log p(x_i|c_i))/batch; the model of ElboLoss is the mean of log q(x) - target(x) over the samples of the per-sample keys "
       "and has the same value with and without stick-the-landing whenever sample_and_log_prob is consistent with sample + log_prob (C03); every row of "
       "_get_contrastive_idxs has exactly n_contrastive pairwise distinct indices, none its own, all in range; the model of ContrastiveLoss equals the mean softmax "
       "cross-entropy -log(e^pos/(e^pos + sum e^neg)), is never negative (logsumexp(.. ++ [pos]) >= pos), and raises exactly when batch <= n_contrastive (or the "
-      "condition batch differs). The real losses are run against the model on Normal, wrapped Transformed, coupling and masked-autoregressive flows "
-      "(conditional and unconditional) with the actual indices of _get_contrastive_idxs on every run.",
-      _TB + " Model/Losses.lean is a hand model tied by correspondence only. 'The STL gradient omits the score-function term' is NOT a Lean theorem "
-      "(stop_gradient has no value-level meaning): it is checked on the real code against the closed-form path-derivative gradient for Normal q and quadratic targets. "
+      "condition batch differs). GRADIENT CLAUSE (reverse-mode calculus Ad.Expr with JAX's cotangent rules + Expr.stopGrad = lax.stop_gradient: forward identity, reverse a symbolic zero): "
+      "for EVERY expression-level reparameterised sample x(theta, eps) (any number of components, later ones may use earlier ones), EVERY expression log q_phi(x) and EVERY parameter-free "
+      "target, every environment, cotangent and number domain: log q evaluated with stop_gradient(params) has the same value, and its reverse pass is the plain one with exactly the "
+      "adjoints of the trainable leaves deleted (substitution lemma, an equality of adjoint lists); hence with stick-the-landing the adjoint of every trainable leaf IS the path derivative "
+      "(the adjoints of log q_phi(x) - target(x) on the sample components alone, phi held fixed, pulled back through x(theta, eps); for one component: xbar * dx/dtheta); without it the adjoint "
+      "is path derivative + score term (adjoint of log q_phi(x) w.r.t. its own parameters at fixed x) on every key, for any number domain whose addition is a commutative monoid (EF = reals with exact "
+      "arithmetic + infinities/NaN), so STL = plain - score wherever the score is finite; the same for the mean over any number of samples; numeric instance N(mu, sigma) with a non-zero "
+      "score term: STL gradient (4, 8) vs plain (5, 19/2). The real losses are run against the model on Normal, wrapped Transformed, coupling and masked-autoregressive flows "
+      "(conditional and unconditional) with the actual indices of _get_contrastive_idxs on every run; the reverse-mode model (Float) is compared with eqx.filter_value_and_grad of the real "
+      "ElboLoss(stick_the_landing=True/False) - value and every trainable leaf's adjoint, same base noise - on Normal, Transformed(Normal, Exp/Tanh/SoftPlus) and Affine/Tanh/Exp/SoftPlus chains "
+      "in 1-3 dimensions, and the decomposition plain = STL + score is checked on the real code alone.",
+      _TB + " Model/Losses.lean is a hand model tied by correspondence only. The gradient theorems are about the expression calculus (scalar straight-line code with let, select, max/min, "
+      "vector lookup, stop_gradient): that JAX's autodiff implements these cotangent rules is trusted and measured (rtol 1e-8) on elementwise flows; Model/ElboAd.lean's wiring of "
+      "Transformed/Chain/BijectionReparam/norm.logpdf/mean around the generated kernels is hand-written and tied by that correspondence; network conditioners (coupling, MAF) are outside the "
+      "expression language (for them the gradient clause is checked only through the real-code oracle on elementwise flows and the closed-form Normal check). The plain branch is modelled as "
+      "log q_theta(x(theta, eps)) via log_prob; the real code's sample_and_log_prob form is run beside it (model and real code agree to rtol 1e-8) but the equality of the two gradients is not a theorem. "
       "jr.choice(replace=False) is modelled as a prefix of an arbitrary permutation; PRNG is JAX's.", "DESIGN.md §5 C17")
 
 claim("C14", "Lean 4: kernel-evaluated staging discipline over a control-flow table regenerated from the source + a noninterference theorem for checked skeletons; real tracer compared by the harness",
